@@ -8,12 +8,15 @@
     C17_inside           every recorded span has both end points in `[0, len]`
     C17_span_*           which token-level span is recorded under each `SpanInfoKey`
     C17_total_top        every element / text child of the document node has its span
-  Not proved here (see props.py): spans are ordered (`start ≤ end`) and fall on char boundaries
-  (needs the tokens to be in source order: a contract of the tokenizer), every node below the top
-  level has its spans, decoding the slice gives the value (character-level part: C02_content).
+    C17_ordered          `start ≤ end` for every recorded span and every error span, when the
+                         character-data tokens come in source order
+  Not proved here (see bin/props/C17.json): spans fall on char boundaries and slice to the spelling
+  (tokenizer), every node below the top level has its spans, decoding the slice gives the value
+  at tree level (character-level part: C02_content).
 -/
 import XotModel.Lemmas.ParseSpans
 import XotModel.Lemmas.ParseSpanKeys
+import XotModel.Lemmas.ParseSpanOrder
 import XotModel.Lemmas.ParseWitnessData
 import XotModel.Lemmas.TokenShapeB
 
@@ -44,6 +47,20 @@ theorem C17_errors_content (attr : Bool) (base : Nat) (s : Str) (e : ContentErr)
 example : (build .document mismatchLen Env.fresh mismatch none).errSpan = some ⟨5, 6⟩ := by
   rw [build_eq_buildE]; decide +kernel
 example : TokenShape mismatchLen mismatch none := tokenShape_of_B (by decide +kernel)
+
+/-- C17_ordered: every recorded span and every error span satisfies `start ≤ end`, when prefix
+    and local-name spans abut the colon (token-shape contract) and the character-data tokens
+    come in source order. -/
+theorem C17_ordered {m : Mode} {len : Nat} {env : Env} {ts : List Token} {lexErr : Option Nat}
+    (hshape : TokenShape len ts lexErr) (hto : TextOrdered ts) :
+    (∀ p, build m len env ts lexErr = .ok p → ∀ e ∈ p.spans, e.2.start ≤ e.2.stop) ∧
+    (∀ e env', build m len env ts lexErr = .err e env' → e.span.start ≤ e.span.stop) := by
+  have h := build_ord m len env ts lexErr hshape.abuts hto
+  constructor
+  · intro p hp; rw [hp] at h; exact h
+  · intro e env' he; rw [he] at h; exact h
+
+example : TextOrdered goodDoc := textOrdered_of_B _ (by decide +kernel)
 
 /-! ### Which span is recorded under which key -/
 
